@@ -234,6 +234,59 @@ def passthrough_flatten_probe(R):
                 R.violation(f"pass-through result {got} (completed with serialization_default) differs from {base}", info)
 
 
+def passthrough_types_probe(R):
+    """PassThroughOptions(types=...): the named types are left untouched where their default serialization would apply, and
+    only there: a conversion given for a position (field / Annotated metadata, `conversion=` argument) still applies; the
+    result completed with serialization_default is the result without pass-through"""
+    pyrun.ensure_repo_on_path()
+    import datetime
+    import json
+    import uuid
+    from dataclasses import dataclass, field
+    from typing import Annotated, Dict, List, Optional
+    from apischema import PassThroughOptions, serialize, serialization_default, serialization_method
+    from apischema.metadata import conversion
+
+    def uuid_to_int(u: uuid.UUID) -> int:
+        return u.int
+
+    def to_ordinal(d: datetime.date) -> int:
+        return d.toordinal()
+
+    @dataclass
+    class Event:
+        id: uuid.UUID
+        parent: Optional[uuid.UUID] = field(default=None, metadata=conversion(serialization=uuid_to_int))
+        day: datetime.date = field(default=datetime.date(2020, 1, 2), metadata=conversion(serialization=to_ordinal))
+        related: List[Annotated[uuid.UUID, conversion(serialization=uuid_to_int)]] = field(default_factory=list)
+        plain_day: datetime.date = datetime.date(2021, 3, 4)
+    u1, u2 = uuid.UUID(int=1), uuid.UUID(int=2 ** 70 + 5)
+    ev = Event(u1, u2, datetime.date(2022, 5, 6), [u1, u2])
+    cases = [(Event, ev, None), (List[Event], [ev, Event(u2)], None), (Dict[str, Optional[Event]], {"a": ev, "b": None}, None),
+             (List[uuid.UUID], [u1, u2], uuid_to_int), (Dict[str, List[uuid.UUID]], {"k": [u2]}, uuid_to_int), (uuid.UUID, u2, uuid_to_int),
+             (List[uuid.UUID], [u1], None), (Optional[datetime.date], datetime.date(2020, 2, 2), None)]
+    options = [PassThroughOptions(types={uuid.UUID}), PassThroughOptions(types={uuid.UUID, datetime.date}),
+               PassThroughOptions(types=lambda cls: cls in (uuid.UUID, datetime.date)),
+               PassThroughOptions(types={datetime.date}, collections=True)]
+    for tp, v, conv in cases:
+        for check_type in (False, True):
+            base = json.dumps(serialize(tp, v, conversion=conv, check_type=check_type), sort_keys=True)
+            for pt in options:
+                R.count("passthrough_types_probe")
+                info = dict(type=str(tp), value=repr(v), pass_through=repr(pt), conversion=getattr(conv, "__name__", None), check_type=check_type)
+                try:
+                    out = serialize(tp, v, conversion=conv, check_type=check_type, pass_through=pt)
+                    got = json.dumps(out, default=serialization_default(), sort_keys=True)
+                    via_method = json.dumps(serialization_method(tp, conversion=conv, check_type=check_type, pass_through=pt)(v),
+                                            default=serialization_default(), sort_keys=True)
+                except Exception as e:   # noqa
+                    R.violation(f"serialize with {pt} raised {type(e).__name__}: {e}", info)
+                    continue
+                if got != base or via_method != base:
+                    R.violation(f"pass-through of named types: result {got} (method: {via_method}), completed with "
+                                f"serialization_default, differs from the result without pass-through {base}", info)
+
+
 def run(tier):
     R = core.Run("C08", tier)
     R.trusted = core.TRUSTED_COMMON + ["object identity (sharing with the input) is observed on the implementation only; "
@@ -331,6 +384,7 @@ def run(tier):
     probes.stdlib_round_trip_probe(R, aspects=("no_copy",))
     sharing_probe(R)
     passthrough_flatten_probe(R)
+    passthrough_types_probe(R)
     return R.finish(
         rule="every deserialization case is re-run with no_copy flipped, through the precomputed deserialization_method, "
              "and with settings.deserialization.override_dataclass_constructors flipped; results (values with runtime "
